@@ -1,7 +1,6 @@
 """Translator: decision constants of the WebSocket receive path  ->  coq/Gen/WsConsts.v
 
-Reads /repo/src/autobahn/websocket/protocol.py (or the file named by AV_WSRECV_PROTOCOL, used only by the
-builder's mutation tests) in two ways:
+Reads $AV_REPO/src/autobahn/websocket/protocol.py (AV_REPO defaults to /repo) in two ways:
   * by IMPORT: CLOSE_STATUS_CODES_ALLOWED, the CLOSE_STATUS_CODE_* values used by the failure paths, the STATE_* and
     MESSAGE_TYPE_* constants;
   * by AST: every integer comparison of the functions on the receive path (processData, onCloseFrame,
@@ -13,36 +12,30 @@ The generated file is what the Gallina model (coq/Model/WsRecv.v) uses for *ever
 operator / literal / opcode list / close-code set changes the model and breaks the theorems that pin the RFC values.
 """
 import ast
-import importlib.util
 import os
 import sys
 
-DEFAULT_SRC = "/repo/src/autobahn/websocket/protocol.py"
+def repo():
+    return os.environ.get("AV_REPO", "/repo")      # tree under test (BUILDERS.md convention)
+
+
+def source_path():
+    return os.path.join(repo(), "src", "autobahn", "websocket", "protocol.py")
 
 
 class TranslatorError(Exception):
     pass
 
 
-def source_path():
-    return os.environ.get("AV_WSRECV_PROTOCOL") or DEFAULT_SRC
-
-
-def load_module(path=None):
-    """import the protocol module (from the alternative file when AV_WSRECV_PROTOCOL is set)"""
-    path = path or source_path()
-    import autobahn.websocket  # noqa: F401  (package first)
-    if os.path.abspath(path) == DEFAULT_SRC:
-        import autobahn.websocket.protocol as P
-        return P
-    name = "autobahn.websocket.protocol"
-    spec = importlib.util.spec_from_file_location(name, path)
-    mod = importlib.util.module_from_spec(spec)
-    sys.modules[name] = mod
-    spec.loader.exec_module(mod)
-    import autobahn.websocket as pkg
-    pkg.protocol = mod
-    return mod
+def load_module():
+    """import the protocol module of the tree under test ($AV_REPO/src is first on PYTHONPATH under ck.run_impl)"""
+    src = os.path.join(repo(), "src")
+    if src not in sys.path:
+        sys.path.insert(0, src)
+    import autobahn.websocket.protocol as P
+    if os.path.realpath(P.__file__) != os.path.realpath(source_path()):
+        raise TranslatorError(f"imported {P.__file__}, expected {source_path()}")
+    return P
 
 
 # ---- AST side -------------------------------------------------------------------------------------------------
@@ -122,6 +115,7 @@ EXPECTED = {
         (("code", "#"), "cf_code_high"),
         (("self_serverConnectionDropTimeout", "#"), None),
         (("self_websocket_version", "#"), None),
+        (("self_serverConnectionDropTimeout", "#"), None),
     ],
     "processControlFrame": [
         (("cur_opcode", "#"), "pc_is_close"),
@@ -200,7 +194,7 @@ def generate(path=None):
     if len(cls) != 1:
         raise TranslatorError("class WebSocketProtocol not found exactly once")
     fns = {f.name: f for f in cls[0].body if isinstance(f, ast.FunctionDef)}
-    P = load_module(path)
+    P = load_module()
     W = P.WebSocketProtocol
     consts = {"MESSAGE_TYPE_TEXT": W.MESSAGE_TYPE_TEXT, "MESSAGE_TYPE_BINARY": W.MESSAGE_TYPE_BINARY}
     allowed = list(W.CLOSE_STATUS_CODES_ALLOWED)
@@ -210,7 +204,7 @@ def generate(path=None):
                   PROXY_CONNECTING=W.STATE_PROXY_CONNECTING)
     if len(set(states.values())) != 5:
         raise TranslatorError(f"protocol states not distinct: {states}")
-    out = ["(* GENERATED by translators/ws_consts.py from " + ("/repo/src/autobahn/websocket/protocol.py" if os.path.abspath(path) == DEFAULT_SRC else "an alternative protocol.py (mutation test)") + " -- do not edit, never committed *)",
+    out = ["(* GENERATED by translators/ws_consts.py from " + path + " -- do not edit, never committed *)",
            "From Coq Require Import NArith List Bool.", "Import ListNotations.", "Open Scope N_scope.", "",
            "(* WebSocketProtocol.CLOSE_STATUS_CODES_ALLOWED (by import) *)",
            "Definition close_codes_allowed : list N := [" + "; ".join(str(c) for c in allowed) + "].", "",
@@ -248,4 +242,12 @@ def generate(path=None):
 
 
 if __name__ == "__main__":
-    sys.stdout.write(generate())
+    if len(sys.argv) >= 3:           # run through vlib.Check.run_impl: JSON in (ignored) / JSON out
+        import json
+        try:
+            res = {"text": generate(), "source": source_path()}
+        except TranslatorError as e:
+            res = {"error": str(e), "source": source_path()}
+        json.dump(res, open(sys.argv[2], "w"))
+    else:
+        sys.stdout.write(generate())
